@@ -67,7 +67,11 @@ def _o1_run(chk, m, mname, run):
             w = where(c, e.lineno)
             classes = {(offs[s].init, offs[s].adv) for s in syms}
             if any(a is None for _, a in classes):
-                chk.undecided("O1", key, w, "offset not advanced by a path-independent amount")
+                ow = [offs[s] for s in syms if offs[s].d.get("overwritten")]
+                if ow:
+                    chk.violation("O1", key, w, "offset '%s' is overwritten in the loop with %s instead of being accumulated: from the third surface on the blocks overlap" % (ow[0].name, ow[0].d.get("endval")))
+                else:
+                    chk.undecided("O1", key, w, "offset not advanced by a path-independent amount")
                 continue
             if len(classes) != 1:
                 chk.violation("O1", key, w, "slice bounds mix offsets that advance differently: %s" % sorted((str(offs[s].name), str(offs[s].adv)) for s in syms))
@@ -121,22 +125,30 @@ def _o1_run(chk, m, mname, run):
             s0 = next(iter(syms))
             ev0 = offs[s0]
             arr = e.arr
-            if not (arr.extra and arr.extra[0] == "arange" and arr.shape and len(arr.shape) == 1 and arr.shape[0] is not None):
+            rng = arr.dom.get("IDXR")
+            if rng is None:
                 continue
             used.add(s0)
             key = "%s.%s: %s" % (c.name, mname, " ".join(e.text.split()))
             w = where(c, e.lineno)
             if ev0.adv is None:
-                chk.undecided("O1", key, w, "offset not advanced by a path-independent amount")
+                if ev0.d.get("overwritten"):
+                    chk.violation("O1", key, w, "offset '%s' is overwritten in the loop with %s instead of being accumulated: from the third surface on the blocks overlap" % (ev0.name, ev0.d.get("endval")))
+                else:
+                    chk.undecided("O1", key, w, "offset not advanced by a path-independent amount")
                 continue
-            lo = arr.extra[1]
-            n = arr.shape[0]
+            lo = rng[0]
+            n = sp.expand(rng[1] - rng[0])
             if lo is None or lo != 0:
                 continue
             if sp.expand(n - ev0.adv) == 0 and ev0.init == 0:
                 chk.ok("O1", key, w, "index block arange(%s) + offset; advance == %s" % (n, ev0.adv))
             else:
                 chk.violation("O1", key, w, "index block arange(%s) + %s but %s advances by %s per iteration (init %s) under %s: blocks overlap or leave gaps" % (n, ev0.name, ev0.name, ev0.adv, ev0.init, sig_txt(run.sigma)))
+    # offsets overwritten with a per-element value (used as index base in any form)
+    for sym, ev in offs.items():
+        if ev.d.get("overwritten") and ev.loop_kind in ("cfglist",) and ev.d.get("endval") is not None and ev.d.get("endval").free_symbols:
+            chk.violation("O1", "%s.%s: offset %s" % (c.name, mname, ev.name), where(c, ev.lineno), "running offset '%s' (initialised before the loop, read in the body) is overwritten with the per-surface value %s instead of being accumulated: it holds the size of the previous surface only, so blocks overlap from the third surface on" % (ev.name, ev.d.get("endval")))
     # offsets that address blocks but are never advanced
     for s in used:
         ev = offs[s]
@@ -176,3 +188,177 @@ def run(chk, repo, tier):
     models = all_models(repo, chk)
     o1(chk, repo, models)
     o2(chk, repo, models)
+    o2b(chk, repo, models)
+    o5(chk, repo, models)
+    keys_rule(chk, repo)
+
+
+# --------------------------------------------------------------------------- O5
+import ast as _ast
+
+from ..load import unparse as _unparse
+
+
+def _acc_updates(loop):
+    """accumulators of a loop body: names updated by x += e / x -= e / x = x + e."""
+    acc = {}
+    for n in _ast.walk(_ast.Module(body=loop.body, type_ignores=[])):
+        if isinstance(n, _ast.AugAssign) and isinstance(n.target, _ast.Name) and isinstance(n.op, (_ast.Add, _ast.Sub)):
+            acc.setdefault(n.target.id, []).append(n)
+        elif isinstance(n, _ast.Assign) and len(n.targets) == 1 and isinstance(n.targets[0], _ast.Name) and isinstance(n.value, _ast.BinOp) and isinstance(n.value.op, (_ast.Add, _ast.Sub)):
+            nm = n.targets[0].id
+            if isinstance(n.value.left, _ast.Name) and n.value.left.id == nm:
+                acc.setdefault(nm, []).append(n)
+    return acc
+
+
+def o5(chk, repo, models):
+    """Order independence of accumulations over the surface list."""
+    chk.rule("O5", "a quantity accumulated over the surface list (x += term_i / x = x + term_i) is only ever updated by such commutative additions inside the loop: no element store, scaling or overwrite of the running total (the result must not depend on the order of the surfaces)", min_decided=10)
+    seen = set()
+    for m in models:
+        c = m.cls
+        if c.name in POSTPROCESSING:
+            continue
+        for mname, f in c.methods.items():
+            if mname in ("setup", "initialize", "__init__"):
+                continue
+            for loop in _ast.walk(f.node):
+                if not isinstance(loop, _ast.For):
+                    continue
+                it = _unparse(loop.iter)
+                if "surfaces" not in it and "sections" not in it:
+                    continue
+                acc = _acc_updates(loop)
+                if not acc:
+                    continue
+                # accumulators must be bound before the loop (running totals), not per-iteration temporaries
+                bound_before = set()
+                for n in _ast.walk(f.node):
+                    if isinstance(n, _ast.Assign) and n.lineno < loop.lineno:
+                        for t in n.targets:
+                            if isinstance(t, _ast.Name):
+                                bound_before.add(t.id)
+                for nm, ups in acc.items():
+                    if nm not in bound_before:
+                        continue
+                    key = "%s.%s: accumulator '%s' (loop at line %d)" % (c.name, mname, nm, loop.lineno)
+                    bad = []
+                    for n in _ast.walk(_ast.Module(body=loop.body, type_ignores=[])):
+                        tg = []
+                        if isinstance(n, _ast.Assign):
+                            tg = [(t, "=") for t in n.targets]
+                        elif isinstance(n, _ast.AugAssign):
+                            tg = [(n.target, type(n.op).__name__)]
+                        for t, op in tg:
+                            base = t
+                            sub = False
+                            while isinstance(base, (_ast.Subscript, _ast.Attribute)):
+                                base = base.value
+                                sub = True
+                            if not (isinstance(base, _ast.Name) and base.id == nm):
+                                continue
+                            if n in ups:
+                                continue
+                            if sub and op in ("Add", "Sub"):
+                                continue  # element-wise accumulation is still commutative
+                            bad.append((n.lineno, _unparse(n)[:80], op))
+                    if bad:
+                        ln, txt, op = bad[0]
+                        chk.violation("O5", key, where(c, ln), "the running total '%s' over the surface list is also modified by '%s' inside the loop: contributions of surfaces listed earlier are overwritten / rescaled, so the result depends on the order of the surfaces" % (nm, txt))
+                    else:
+                        chk.ok("O5", key, where(c, loop.lineno), "only commutative additions")
+
+
+def o2b(chk, repo, models):
+    """Per-surface values cached in a scalar attribute."""
+    chk.rule("O2b", "a value derived from the element of a loop over surfaces is not cached in a scalar instance attribute and then used for every surface elsewhere", min_decided=20)
+    for m in models:
+        c = m.cls
+        if c.name in POSTPROCESSING:
+            continue
+        cached = {}
+        for mname, runs in m.runs.items():
+            for run in runs:
+                for e in run.events:
+                    if e.kind == "attr_store" and e.val is not None and any(l.kind == "cfglist" for l in e.loops):
+                        v = e.val
+                        prov = (v.cx and ("surfaces[" in v.cx or "sections[" in v.cx)) or (v.sym is not None and any(x.name.endswith(("_i", "_0", "_si", "_s0")) for x in v.sym.free_symbols))
+                        if prov and v.kind not in ("dict", "cfgdict", "cfglist", "list"):
+                            cached.setdefault(e.attr, (mname, e))
+        reads = {}
+        for mname, runs in m.runs.items():
+            for run in runs:
+                for e in run.events:
+                    if e.kind == "attr_read" and e.attr in cached and any(l.kind == "cfglist" for l in e.loops):
+                        src_m, src_e = cached[e.attr]
+                        same_iter = src_m == mname and any(l1.node is l2.node for l1 in src_e.loops for l2 in e.loops)
+                        if not same_iter:
+                            reads.setdefault(e.attr, (mname, e))
+        for attr, (mname, e) in cached.items():
+            key = "%s: self.%s" % (c.name, attr)
+            if attr in reads:
+                rm, re_ = reads[attr]
+                chk.violation("O2b", key, where(c, re_.lineno), "self.%s is assigned inside the loop over surfaces in %s (line %d) from the per-surface value %s and read inside the surface loop of %s: every surface sees the last surface's value" % (attr, mname, e.lineno, e.val.cx or e.val.sym, rm))
+            else:
+                chk.ok("O2b", key, where(c, e.lineno), "per-surface value not reused across surfaces")
+        if not cached:
+            chk.ok("O2b", "%s: no per-surface scalar attribute" % c.name, c.where, "")
+
+
+def keys_rule(chk, repo, rule="O4", only_keys=None):
+    """Writer/reader agreement of the per-surface configuration keys copied for
+    multi-section surfaces."""
+    from ..groups import group_model
+    from ..load import const_fold
+    from ..model import component_model
+    from .c02 import _classes_inside
+
+    chk.rule(rule, "every surface-dictionary key read by the aerodynamic subsystems of AeroPoint is in the list of keys copied into the aero surface dictionary built for multi-section surfaces (writer and reader tables agree)", min_decided=5 if only_keys is None else 1)
+    g = repo.cls("openaerostruct/aerodynamics/aero_groups.py", "AeroPoint")
+    f = g.methods["setup"]
+    tk = None
+    tk_line = f.node.lineno
+    for n in _ast.walk(f.node):
+        if isinstance(n, _ast.Assign) and any(isinstance(t, _ast.Name) and t.id == "target_keys" for t in n.targets):
+            try:
+                tk = set(const_fold(n.value))
+                tk_line = n.lineno
+            except ValueError:
+                tk = None
+    if tk is None:
+        chk.undecided(rule, "AeroPoint.setup: target_keys", g.where, "list of copied keys not found")
+        return
+    gm = group_model(repo, g)
+    inside = set()
+    for gr in gm.runs:
+        for o in gr.owners():
+            inside |= _classes_inside(repo, gr, o)
+    byname = {}
+    for c in repo.components() + repo.groups():
+        byname.setdefault(c.name, c)
+    readers = {}
+    for n in sorted(inside):
+        c = byname.get(n)
+        if c is None:
+            continue
+        evs = []
+        if c.kind == "group":
+            for r in group_model(repo, c).all_runs:
+                evs += r.events
+        else:
+            for rs in component_model(repo, c).runs.values():
+                for r in rs:
+                    evs += r.events
+        for e in evs:
+            if e.kind == "cfg_read" and ("surface" in e.src or "section" in e.src):
+                readers.setdefault(e.key, set()).add(n)
+    for k in sorted(readers):
+        if only_keys is not None and k not in only_keys:
+            continue
+        key = "AeroPoint.setup: target_keys has '%s'" % k
+        w = "%s:%d" % (g.mod.rel, tk_line)
+        if k in tk:
+            chk.ok(rule, key, w, "read by %s" % sorted(readers[k])[:4])
+        else:
+            chk.violation(rule, key, w, "surface key '%s' is read by %s but is not copied into the aero surface dictionary of a multi-section surface: the option silently falls back to its default there" % (k, sorted(readers[k])[:4]))
